@@ -110,6 +110,13 @@ func syncRun(w *bufio.Writer, rng *rand.Rand, run int, o syncOpts, stats map[str
 	}
 	injected := false
 	reproposed := false
+	// c09x, every second run: the restart hits the primary of a later view right after it has proposed (its peers then hold
+	// its proposal, and it must take it back from their recovery messages)
+	restartOnLateProposal := o.mode == "c09x" && rng.Intn(2) == 0
+	if restartOnLateProposal {
+		restartNode, restartAt = -1, -1
+	}
+	curStep := 0
 	lazy := map[int]bool{}
 	waited := false
 	ledgerSyncs := 0
@@ -144,6 +151,9 @@ func syncRun(w *bufio.Writer, rng *rand.Rand, run int, o syncOpts, stats map[str
 				if p.T == dbft.ChangeViewType || p.T == dbft.RecoveryRequestType {
 					cvrr++
 				}
+				if restartOnLateProposal && restartNode < 0 && p.T == dbft.PrepareRequestType && p.V >= 1 && !silent[n.id] {
+					restartNode, restartAt = n.id, curStep+1
+				}
 				if p.T == dbft.PrepareRequestType && p.Hgt > lastHeightSeen {
 					lastHeightSeen = p.Hgt
 					props = append(props, prop{n.tm.now, len(p.Body.(prepReq).hashes) == 0})
@@ -172,6 +182,7 @@ func syncRun(w *bufio.Writer, rng *rand.Rand, run int, o syncOpts, stats map[str
 	target := startHeight + uint32(heights)
 	budget := 1500 + 300*N
 	for step := 0; step < budget; step++ {
+		curStep = step
 		done := true
 		for _, n := range nodes {
 			if n.height < target {
@@ -199,7 +210,9 @@ func syncRun(w *bufio.Writer, rng *rand.Rand, run int, o syncOpts, stats map[str
 			// the old instance had already proposed at the height it is restarted in: the fresh one either proposes
 			// again (equivocation) or is handed its own forgotten proposal by its peers
 			_ = nOut
-			if old.tr.height == old.d.BlockIndex && len(old.tr.proposals) > 0 {
+			// (known finding D18). That is inevitable only for the primary of view 0, which proposes at once when started; a
+			// restarted primary of a later view re-enters that view through recovery and must take its own proposal back
+			if _, atView0 := old.tr.proposals[0]; old.tr.height == old.d.BlockIndex && atView0 {
 				reproposed = true
 			}
 			restartAt = -1
